@@ -174,6 +174,10 @@ def _pattern_stream(reader: str, cfg, pattern: str, total: int, rng: random.Rand
             return FL + fr + b"\x55" + FL * total
         elif pattern == "header_then_flags":
             return FL + fr[:8] + FL * total
+        elif pattern == "escape_run":                 # an opening flag, then nothing but escape octets
+            return FL + ES * total
+        elif pattern == "escape_dense_frame":         # never-ending frame made of escapes and escaped octets
+            return FL + b"\xa7\xff\x01\x03\x13" + bytes(rng.choice(b"\x7d\x7d\x7d\x5e\x5d\x01\x20") for _ in range(total))
         else:
             unit = FL
         return (unit * (total // len(unit) + 1))[:total]
@@ -199,7 +203,8 @@ def _pattern_stream(reader: str, cfg, pattern: str, total: int, rng: random.Rand
     return (unit * (total // len(unit) + 1))[:total]
 
 
-HDLC_PATTERNS = ["all_flags", "flag_junk", "valid_frames", "never_ending_frame", "random", "esc_flag", "overshoot_then_flags", "header_then_flags"]
+HDLC_PATTERNS = ["all_flags", "flag_junk", "valid_frames", "never_ending_frame", "random", "esc_flag", "overshoot_then_flags", "header_then_flags",
+                 "escape_run", "escape_dense_frame"]
 P1_PATTERNS = ["slash_lines_no_bang", "slash_no_lf", "ident_endless_lines", "valid_readouts", "random_ascii", "random", "no_lf_no_slash",
                "slash_repeated"]
 
